@@ -1,0 +1,30 @@
+//go:build verif
+
+// Machine-checked contracts for package safehtml (comment-only; read by /verif/govc).
+// This file adds no code. Clause language: /verif/DESIGN.md section 2.2.
+
+package safehtml
+
+//@ func consumeNotIn(str string, mask [256]bool) (consumed, rest string)
+//@   serves C12 C08
+//@   ensures split: len(consumed) + len(rest) == len(str)
+//@   ensures cview: subview(consumed, str, 0, len(consumed))
+//@   ensures rview: len(rest) == 0 || subview(rest, str, len(consumed), len(str))
+//@   ensures allnot: forall(k, 0, len(consumed), !mask[str[k]])
+//@   ensures stop: len(rest) > 0 ==> mask[rest[0]]
+//@   loop 1
+//@     invariant 0 <= i && i <= n && n == len(str)
+//@     invariant forall(k, 0, i, !mask[str[k]])
+//@     decreases n - i
+
+//@ func consumeIn(str string, mask [256]bool) (consumed, rest string)
+//@   serves C12 C08
+//@   ensures split: len(consumed) + len(rest) == len(str)
+//@   ensures cview: subview(consumed, str, 0, len(consumed))
+//@   ensures rview: len(rest) == 0 || subview(rest, str, len(consumed), len(str))
+//@   ensures allin: forall(k, 0, len(consumed), mask[str[k]])
+//@   ensures stop: len(rest) > 0 ==> !mask[rest[0]]
+//@   loop 1
+//@     invariant 0 <= i && i <= n && n == len(str)
+//@     invariant forall(k, 0, i, mask[str[k]])
+//@     decreases n - i
